@@ -645,7 +645,7 @@ func Run(c *core.Ctx) error {
 	tSweep := shards("sweep", 1)
 	tAlias := shards("alias", c.Pick(1, 2))
 	tChurn := shards("churn", c.Pick(1, 2))
-	nConc := c.Pick(3, 8)
+	nConc := c.Pick(3, 6)
 	tConc := shards("conc", nConc)
 	nAlias := c.Pick(6, 24)
 
@@ -687,7 +687,7 @@ func Run(c *core.Ctx) error {
 	// quick: one of the two cases (by the seed), thorough: both
 	for cas := 0; cas < 2; cas++ {
 		if (c.Thorough() || int(c.Seed&1) == cas) && c.Want("churn", cas) {
-			runChurn(c, tChurn[cas%len(tChurn)], "churn", cas, c.Pick(2200, 6000))
+			runChurn(c, tChurn[cas%len(tChurn)], "churn", cas, c.Pick(2200, 3500))
 		}
 	}
 	if c.OnlyGen == "" || c.OnlyGen == "sweepref" || c.OnlyGen == "sweepfail" {
